@@ -15,11 +15,11 @@ use futures::StreamExt;
 pub static DEF: PropDef = PropDef {
     id: "C20",
     level: "exploration",
-    rule: "each case: one input (valid / truncated / mutated without oversized declarations; occasionally 64 KiB-1, 64 KiB, 64 KiB+1 and ~200 KiB long to cross the transfer buffer) x buffered-master subset x async delivery schedules driven on a single-threaded executor: everything at once, two halves, k bytes per read, 1 byte per read, random partitions, ALL 2^(n-1) partitions for inputs of <= 8 (quick) / <= 10 (thorough) bytes, each with Poll::Pending (self-waking) every k-th poll. TagIteratorAsync::next() is awaited until None (then 3 more times: must stay None); item values and last_emitted_tag_offset() after every item are compared with the blocking TagIterator over the same bytes, the final error too; the Stream adapter (into_stream) is collected and compared as well. A schedule is classified 'starved' by replaying it against the real blocking iterator through a gated source (one delivery, then one next(), exactly like the adapter): starved iff the iterator sees end-of-file (Ok(0)) while data is still outstanding; divergences on starved schedules carry the single signature C20/starved-read (known limitation of the adapter), divergences on non-starved schedules get specific signatures. distinct = (schedule class, whether a read boundary splits a tag, pending pattern, buffered?); non-trivial iff the schedule has >= 2 reads.",
-    assumptions: &["inputs whose limited pre-screen (16 MiB) reports InvalidTagSize are skipped: the adapter cannot change the 4 GB default limit and a legitimate GB allocation per worker would exhaust the box", "zero-length reads in the middle of the data are not injected: Ok(0) means end of stream for an AsyncRead"],
+    rule: "each case: one input (valid / truncated / mid-document / ids swapped for other known or unknown ids — size fields and alignment are never corrupted, see assumptions; occasionally 64 KiB-1, 64 KiB, 64 KiB+1 and ~200 KiB long to cross the transfer buffer) x buffered-master subset x async delivery schedules driven on a single-threaded executor: everything at once, two halves, k bytes per read, 1 byte per read, random partitions, ALL 2^(n-1) partitions for inputs of <= 8 (quick) / <= 10 (thorough) bytes, each with Poll::Pending (self-waking) every k-th poll. TagIteratorAsync::next() is awaited until None (then 3 more times: must stay None); item values and last_emitted_tag_offset() after every item are compared with the blocking TagIterator over the same bytes, the final error too; the Stream adapter (into_stream) is collected and compared as well. Every 500th case is a default-limit probe: a master declaring a size around 4*10^9 / 2^32 (5-8 byte size field) must be accepted or rejected by the adapter exactly as by the blocking iterator. A schedule is classified 'starved' by replaying it against the real blocking iterator through a gated source (one delivery, then one next(), exactly like the adapter): starved iff the iterator sees end-of-file (Ok(0)) while data is still outstanding; divergences on starved schedules carry the single signature C20/starved-read (known limitation of the adapter), divergences on non-starved schedules get specific signatures. distinct = (schedule class, whether a read boundary splits a tag, pending pattern, buffered?); non-trivial iff the schedule has >= 2 reads.",
+    assumptions: &["byte-level mutations are not used: the adapter cannot change the 4 GB default limit and a misaligned parse could legitimately allocate gigabytes per worker", "inputs whose limited pre-screen (16 MiB) reports InvalidTagSize are skipped: the adapter cannot change the 4 GB default limit and a legitimate GB allocation per worker would exhaust the box", "zero-length reads in the middle of the data are not injected: Ok(0) means end of stream for an AsyncRead"],
     cases_quick: 60_000,
     cases_thorough: 800_000,
-    floors: &[("schedules_compared", 20_000), ("non_starved_schedules", 8_000), ("stream_adapter_runs", 3_000), ("distinct_nontrivial", 60), ("exhaustive_partition_inputs", 20), ("inputs_over_64k", 3)],
+    floors: &[("schedules_compared", 20_000), ("non_starved_schedules", 8_000), ("stream_adapter_runs", 3_000), ("distinct_nontrivial", 60), ("exhaustive_partition_inputs", 20), ("inputs_over_64k", 3), ("default_limit_probes", 20)],
     exhaustive_note: Some("all 2^(n-1) partitions of inputs of <= 8 (quick) / <= 10 (thorough) bytes"),
     run,
 };
@@ -144,12 +144,52 @@ fn starved_by_simulation(bytes: &[u8], reads: &[usize], buffered: &[u64]) -> boo
     r.is_err() || pe.get()
 }
 
+/// The adapter must apply the same default size limit as the blocking iterator: masters (no allocation involved)
+/// declaring sizes around 4*10^9 and 2^32, delivered at once.
+fn run_limit_probe(c: &mut Case) {
+    let spec = crate::gen::z_kitchen(false);
+    spec.install();
+    let w = c.rng.urange(5, 8);
+    let v: u64 = *c.rng.pick(&[3_999_999_999u64, 4_000_000_000, 4_000_000_001, 4_100_000_000, 4_294_967_295, 4_294_967_296, 4_294_967_297, 5_000_000_000]);
+    let mut bytes = crate::refcodec::id_bytes(0x18538067);
+    bytes.extend(crate::refcodec::enc_vint(v, w));
+    bytes.extend([0xEC, 0x82, 0x01, 0x02]);
+    let base = parse_slice(&bytes, &RCfg { allow: 0, buffered: vec![], capacity: None, max_size: MaxSz::Default, eof_end: true });
+    let ar = run_async(&bytes, vec![], usize::MAX, 0, &[]);
+    c.eval();
+    c.count("default_limit_probes");
+    if ar.items != base.items || ar.end != base.end {
+        c.violation(
+            format!("C20/default-limit-differs/{}", if v > 4_000_000_000 { "above-limit" } else { "within-limit" }),
+            format!("master declaring {} bytes: blocking iterator ends {} after {} items, async iterator ends {} after {} items", v, base.end.short(), base.items.len(), ar.end.short(), ar.items.len()),
+            J::obj().set("bytes", J::hex(&bytes)).set("declared_size", J::u(v)).set("blocking", base.to_json(8)).set("async_items", J::Arr(ar.items.iter().map(|(i, o)| J::s(format!("{}@{}", i.short(), o))).collect())).set("async_end", J::s(ar.end.short())),
+        );
+    }
+    c.nontrivial(mix(hash_str("limit-probe"), v));
+}
+
 fn run(c: &mut Case) {
+    if c.idx % 500 == 77 {
+        run_limit_probe(c);
+        return;
+    }
     let big = c.rng.chance(1, 400) || (c.tier == Tier::Thorough && c.rng.chance(1, 2000));
     let mut m = Mix::MOSTLY_VALID;
     m.small = c.rng.chance(1, 2);
+    // no byte-level mutations here: the adapter cannot lower the 4 GB default limit, and a misaligned parse (payload
+    // bytes read as headers) may then legitimately allocate gigabytes. Corruption is limited to id swaps, which keep
+    // every size field and the alignment intact; truncation and mid-document starts come from the input mix.
+    m.mutated = 0;
     let mut inp = gen_input(&mut c.rng, c.tier, &m);
     inp.spec.install();
+    if inp.valid && c.rng.chance(1, 4) {
+        let n = c.rng.urange(1, 2);
+        let (b, k) = crate::mutate::mutate_ids_only(&mut c.rng, &inp.spec, &inp.bytes, &inp.lay, n);
+        inp.bytes = b;
+        inp.mutations = k;
+        inp.kind = "id-mutated".into();
+        inp.valid = false;
+    }
     if big {
         // grow a valid document past the 64 KiB transfer buffer by appending Void elements at root level... simpler: repeat the document
         let target = *c.rng.pick(&[65535usize, 65536, 65537, 200 * 1024]);
